@@ -4,7 +4,7 @@ vs C32.Model.interp / pchip / slopes, exact rational model vs float impl within 
 Oracle: pass-through at every support point (all four kinds incl. quadratic interp1d and LogSpline), results within the
 neighbouring support values (linear always; Pchip / LogSpline-Pchip for monotone data), identical evaluation and
 identical x/y data after a to_json/from_json round trip of the net (file-less string round trip and file)."""
-import math, os, tempfile
+import copy, math, os, tempfile
 from fractions import Fraction
 import numpy as np
 import pandapower as pp
@@ -81,13 +81,96 @@ def within_neighbours(xs, ys, x, v, tol):
     return lo - tol <= v <= hi + tol
 
 
-def run(ctx):
-    rng = ctx.rng
-    t_lin, k_lin, t_pc, k_pc = [], [], [], []
-    net0 = pp.create_empty_network()
-    n_cases = ctx.n(220, 2500)
-    for it in range(n_cases):
-        net = pp.create_empty_network() if it % 20 == 0 else net
+def _safe_vals(ctx, o, xs, what, rc):
+    """evaluate; an exception on valid data is a violation"""
+    try:
+        return [float(o(x)) for x in xs]
+    except Exception as e:
+        ctx.violation("spec", "%s: calling the characteristic raises %s: %s" % (what, type(e).__name__, str(e)[:150]), rc)
+        return None
+
+
+def _twin(net, o):
+    """a second object with the same data that has never been evaluated (no cached interpolator)"""
+    if isinstance(o, LogSplineCharacteristic):
+        return LogSplineCharacteristic(net, np.power(10.0, np.asarray(o.x_vals, dtype=float)), np.power(10.0, np.asarray(o.y_vals, dtype=float)),
+                                       interpolator_kind=o.interpolator_kind, **dict(o.kwargs))
+    if isinstance(o, SplineCharacteristic):
+        return SplineCharacteristic(net, o.x_vals, o.y_vals, interpolator_kind=o.interpolator_kind, **dict(o.kwargs))
+    return Characteristic(net, o.x_vals, o.y_vals)
+
+
+def _same_data(o1, o2):
+    try:
+        return _same_data_raw(o1, o2)
+    except Exception:                       # e.g. support data that came back as undecoded dicts
+        return False
+
+
+def _same_data_raw(o1, o2):
+    return (np.allclose(np.asarray(o2.x_vals, dtype=float), np.asarray(o1.x_vals, dtype=float), rtol=0, atol=1e-14)
+            and np.allclose(np.asarray(o2.y_vals, dtype=float), np.asarray(o1.y_vals, dtype=float), rtol=0, atol=1e-14))
+
+
+def _roundtrips(ctx, rng, net, objs, it):
+    """net-level (string / file) and object-level (Class.from_json(obj.to_json())) round trips of evaluated and of
+    never-evaluated objects; the loaded objects are evaluated, saved and loaded once more"""
+    entries = []
+    for k, o, e in objs:
+        kwargs0 = copy.deepcopy(getattr(o, "kwargs", None))
+        tw = _twin(net, o)                                   # never evaluated before saving
+        rc = {"kind": "roundtrip-" + k, "x": [float(v) for v in np.asarray(o.x_vals)], "y": [float(v) for v in np.asarray(o.y_vals)],
+              "kwargs": repr(kwargs0), "eval": e}
+        vals0 = _safe_vals(ctx, o, e, "%s before saving" % k, rc)
+        if vals0 is None:
+            continue
+        if kwargs0 is not None and repr(o.kwargs) != repr(kwargs0):
+            ctx.violation("spec", "%s: evaluating changed the stored interpolator arguments %r -> %r" % (k, kwargs0, o.kwargs), rc)
+        entries.append((k, o, tw, e, vals0, rc))
+    if it % 15 == 0:
+        fd, path = tempfile.mkstemp(suffix=".json", dir=ctx.workdir); os.close(fd)
+        pp.to_json(net, path); net2 = pp.from_json(path); os.remove(path)
+    else:
+        net2 = pp.from_json_string(pp.to_json(net))
+    net3 = None
+    ctx.count("roundtrips")
+    for k, o, tw, e, vals0, rc in entries:
+        for tag, src in (("evaluated", o), ("never evaluated", tw)):
+            what = "%s (%s before saving)" % (k, tag)
+            # --- net level
+            o2 = net2.characteristic.object.at[src.index]
+            if type(o2) is not type(src):
+                ctx.violation("spec", "%s comes back as %s" % (what, type(o2).__name__), rc)
+                continue
+            if not _same_data(src, o2):
+                ctx.violation("spec", "support data of %s changed by the JSON round trip" % what, rc)
+            v2 = _safe_vals(ctx, o2, e, what + " after to_json/from_json", rc)
+            if v2 is not None and not np.allclose(v2, vals0, rtol=1e-12, atol=1e-12):
+                ctx.violation("spec", "%s evaluates differently after the JSON round trip: %s vs %s" % (what, v2[:4], vals0[:4]), rc)
+            # --- object level
+            try:
+                o3 = type(src).from_json(src.to_json())
+            except Exception as ex:
+                ctx.violation("spec", "%s: %s.from_json(obj.to_json()) raises %s: %s" % (what, type(src).__name__, type(ex).__name__, str(ex)[:120]), rc)
+                continue
+            ctx.count("object_level_roundtrips")
+            if type(o3) is not type(src) or not _same_data(src, o3):
+                ctx.violation("spec", "%s: object-level round trip changes class or support data" % what, rc)
+                continue
+            v3 = _safe_vals(ctx, o3, e, what + " after obj.to_json/from_json", rc)
+            if v3 is not None and not np.allclose(v3, vals0, rtol=1e-12, atol=1e-12):
+                ctx.violation("spec", "%s evaluates differently after the object-level round trip: %s vs %s" % (what, v3[:4], vals0[:4]), rc)
+    # second generation: the loaded (and now evaluated) objects are saved and loaded again
+    if it % 6 == 0 and entries:
+        net3 = pp.from_json_string(pp.to_json(net2))
+        for k, o, tw, e, vals0, rc in entries:
+            o4 = net3.characteristic.object.at[o.index]
+            v4 = _safe_vals(ctx, o4, e, "%s after two round trips" % k, rc)
+            if v4 is not None and not np.allclose(v4, vals0, rtol=1e-12, atol=1e-12):
+                ctx.violation("spec", "%s evaluates differently after a second round trip: %s vs %s" % (k, v4[:4], vals0[:4]), rc)
+
+
+def _one_case(ctx, rng, net, it, t_lin, k_lin, t_pc, k_pc):
         # ---------------- linear
         xs, ys, mode = gen_points(rng, 1)
         ev = eval_points(rng, xs)
@@ -156,28 +239,34 @@ def run(ctx):
                 if not within_neighbours(lx, ly, x, v, 1e-9 * max(ly)):
                     ctx.violation("spec", "LogSplineCharacteristic(%r) = %r leaves the neighbouring support values" % (x, v), lcase)
         objs.append(("log", lg, lev))
-        # ---------------- serialisation round trip (every 4th case: json string; every 20th: file)
-        if it % 4 == 0:
-            before = {o.index: (k, [float(o(x)) for x in e], e) for k, o, e in objs}
-            if it % 20 == 0:
-                fd, path = tempfile.mkstemp(suffix=".json", dir=ctx.workdir); os.close(fd)
-                pp.to_json(net, path); net2 = pp.from_json(path); os.remove(path)
-            else:
-                net2 = pp.from_json_string(pp.to_json(net))
-            ctx.count("roundtrips")
-            for idx, (k, vals0, e) in before.items():
-                o2 = net2.characteristic.object.at[idx]
-                o1 = net.characteristic.object.at[idx]
-                rc = {"kind": "roundtrip-" + k, "x": [float(v) for v in np.asarray(o1.x_vals)], "y": [float(v) for v in np.asarray(o1.y_vals)]}
-                if type(o2) is not type(o1):
-                    ctx.violation("spec", "characteristic %d comes back as %s" % (idx, type(o2).__name__), rc)
-                    continue
-                if not (np.allclose(np.asarray(o2.x_vals, dtype=float), np.asarray(o1.x_vals, dtype=float), rtol=0, atol=1e-14)
-                        and np.allclose(np.asarray(o2.y_vals, dtype=float), np.asarray(o1.y_vals, dtype=float), rtol=0, atol=1e-14)):
-                    ctx.violation("spec", "support data of %s characteristic changed by the JSON round trip" % k, rc)
-                v2 = [float(o2(x)) for x in e]
-                if not np.allclose(v2, vals0, rtol=1e-12, atol=1e-12):
-                    ctx.violation("spec", "%s characteristic evaluates differently after the JSON round trip: %s vs %s" % (k, v2[:4], vals0[:4]), rc)
+        # non-default interpolator arguments (kept in obj.kwargs and needed again after loading)
+        kw_variants = [dict(kind="linear", fill_value=(ys[0], ys[-1])), dict(kind="slinear"), dict(kind="linear", fill_value="extrapolate")]
+        if len(xs) >= 4:
+            kw_variants.append(dict(kind="cubic"))
+        kw = rng.choice(kw_variants)
+        skw = SplineCharacteristic(net, xs, ys, **kw)
+        objs.append(("spline-%s" % kw["kind"] + ("-fill" if "fill_value" in kw else ""), skw, ev))
+        # ---------------- serialisation round trips (every 3rd case)
+        if it % 3 == 0:
+            _roundtrips(ctx, rng, net, objs, it)
+
+
+def run(ctx):
+    rng = ctx.rng
+    t_lin, k_lin, t_pc, k_pc = [], [], [], []
+    net0 = pp.create_empty_network()
+    n_cases = ctx.n(220, 2500)
+    for it in range(n_cases):
+        net = pp.create_empty_network() if it % 20 == 0 else net
+        try:
+            _one_case(ctx, rng, net, it, t_lin, k_lin, t_pc, k_pc)
+        except Exception as e:
+            import traceback
+            tb = traceback.extract_tb(e.__traceback__)
+            where = "; ".join("%s:%d" % (os.path.basename(f.filename), f.lineno) for f in tb[-3:])
+            ctx.violation("spec", "a characteristic operation on valid data raised %s: %s (%s)" % (type(e).__name__, str(e)[:150], where),
+                          {"kind": "exception", "iteration": it})
+            net = pp.create_empty_network()
     m_lin = ctx.coq_eval("c32lin", "Base.QN C32.Model", t_lin, shard=80)
     for (case, vals), m in zip(k_lin, m_lin):
         ctx.corr_checked += 1
